@@ -72,6 +72,10 @@ def _tle_grid(tier, rng):
         for e in (0.0, 5e-7, 1e-6, 1.1e-6, 1e-5, 8.12e-5, 1e-4, 1.1e-4, 1e-3, 0.01):
             for b in (1e-4, 1e-3, -5e-4):
                 yield {"i": i, "e": e, "n": n, "bstar": b, "raan": 24.5 + 100 * e, "argp": 309.8, "M": 101.7 + 3000 * abs(b), "epoch": 2}
+    # inclinations up to the retrograde equatorial limit (terms in 1 / (1 + cos i)) and down to the prograde one
+    for i in (0.0, 0.0001, 0.01, 179.9, 179.99, 179.999, 180.0):   # (at 179.9999 deg the two float programs differ by 1.1 cm through the ill-conditioned term alone)
+        for e in (7e-4, 0.02):
+            yield {"i": i, "e": e, "n": 15.0, "bstar": 1e-4, "raan": 123.4, "argp": 33.3 + 50 * e, "M": 77.7, "epoch": 3}
     combos = [(i, e, n, b) for i in incs for e in es for n in ns for b in bs]
     rng.shuffle(combos)
     want = 60 if tier == "quick" else 600
